@@ -25,7 +25,7 @@ def out_cells(ex, st, roots, cnt): return get_reals(ex, st, roots['data_out'], c
 def cex_common(m, D, B, n):
     return {'data': [[mval(m, v) for v in D[b]] for b in range(B)]}
 
-def job_generic_kick(res, n, B, it, axis, seed):
+def job_generic_kick(res, n, B, it, axis, seed, before=None):
     bld = maps_build(); mod = load_module(bld, MAPS_MODS)
     snapB, rB, pB = maps_world(bld, n, B, it); snap1, r1, p1 = maps_world(bld, n, 1, it)
     validate(res, mod, snapB, pB); validate(res, mod, snap1, p1)
@@ -41,6 +41,10 @@ def job_generic_kick(res, n, B, it, axis, seed):
                 f = z3.Real('f_%d_%d' % (bb, x)); st.pc += [f >= 0, f < 1]; st.ranges['f_%d_%d' % (bb, x)] = (Fraction(0), Fraction(1)); F[(bb, x)] = f
             k = krow(seed, bb, x); OFF[(b, x)] = F[(bb, x)] + k
             st.sym[base + 4 * (b * n + x)] = (4, 'f', OFF[(b, x)])
+    if before:      # an earlier step of the same process by a map of another kind (whatever it leaves behind in the process is then present)
+        pre = run_paths(ex, st, 'e_apply', [rB[before]]); account(res, ex, mod, pre)
+        if len(pre) != 1: raise Unsupported('expected a single path for the earlier map, got %d' % len(pre))
+        st = pre[0]
     sts = run_paths(ex, st, 'e_km_swap_apply', [rB[km], rB[off]])
     account(res, ex, mod, sts)
     if len(sts) != 1: raise Unsupported('expected a single path, got %d' % len(sts))
@@ -56,10 +60,10 @@ def job_generic_kick(res, n, B, it, axis, seed):
         diffs = [outB[b * n * n + i] != out1[i] for i in range(n * n)]
         def cex(m, b=b):
             c = cex_common(m, D, B, n)
-            c.update({'replay': 'kick', 'n': n, 'nb': B, 'it': it, 'axis': axis, 'bunch': b,
+            c.update({'replay': 'kick', 'n': n, 'nb': B, 'it': it, 'axis': axis, 'bunch': b, 'before': before,
                       'off': [mval(m, OFF[(bb, x)]) for bb in range(B) for x in range(n)]})
             return c
-        prove(res, 'generic %s-kick n=%d B=%d it=%d: bunch %d of the train == single-bunch run on its own data and displacement (all %d cells)' % ('y' if axis else 'x', n, B, it, b, n * n),
+        prove(res, 'generic %s-kick n=%d B=%d it=%d%s: bunch %d of the train == single-bunch run on its own data and displacement (all %d cells)' % ('y' if axis else 'x', n, B, it, ' after a step of %s in the same process' % before if before else '', b, n * n),
               ss[0].pc, z3.Or(*diffs), key='kick-%s-multibunch' % ('y' if axis else 'x'), cex_fn=cex)
         # dependence witness: a cell of bunch b depends on its own fraction symbol
         if it >= 2:
@@ -68,7 +72,7 @@ def job_generic_kick(res, n, B, it, axis, seed):
             f2 = z3.Real('f_alt'); alt = [z3.substitute(c, (fb, f2)) for c in row]
             witness(res, 'bunch %d output depends on its own displacement (n=%d it=%d axis=%d)' % (b, n, it, axis), list(ss[0].pc) + [f2 >= 0, f2 < 1], z3.Or(*[a != c for a, c in zip(alt, row)]))
 
-def job_fixed_map(res, what, n, B, it, dt, fptype):
+def job_fixed_map(res, what, n, B, it, dt, fptype, before=None):
     """maps whose displacement field / operator is computed by the real constructor (native, in the snapshot): RF (both models), drift,
     Fokker-Planck, identity.  Data of every bunch symbolic."""
     bld = maps_build(); mod = load_module(bld, MAPS_MODS)
@@ -77,6 +81,9 @@ def job_fixed_map(res, what, n, B, it, dt, fptype):
     validate(res, mod, snapB, pB)
     ex = Exec(mod, snapB, RealDom()); st = State()
     D = sym_data(ex, st, rB, B, n)
+    if before:      # an earlier step of the same process by a map of another kind: 'kmy'/'kmx' = a kick map with one displacement row per bunch (as the wake kick), else a constructor-made map
+        pre = run_paths(ex, st, 'e_km_swap_apply', [rB[before], rB['offy' if before == 'kmy' else 'offx']]) if before in ('kmx', 'kmy') else run_paths(ex, st, 'e_apply', [rB[before]])
+        account(res, ex, mod, pre); st = pre[0]
     sts = run_paths(ex, st, 'e_apply', [rB[what]]); account(res, ex, mod, sts)
     outB = out_cells(ex, sts[0], rB, B * n * n)
     for b in range(B):
@@ -85,8 +92,8 @@ def job_fixed_map(res, what, n, B, it, dt, fptype):
         out1 = out_cells(ex1, ss[0], r1, n * n)
         diffs = [outB[b * n * n + i] != out1[i] for i in range(n * n)]
         def cex(m, b=b):
-            c = cex_common(m, D, B, n); c.update({'replay': what, 'n': n, 'nb': B, 'it': it, 'dt': dt, 'fptype': fptype, 'bunch': b}); return c
-        prove(res, '%s n=%d B=%d it=%d dt=%d fptype=%d: bunch %d of the train == single-bunch run on its own data' % (what, n, B, it, dt, fptype, b),
+            c = cex_common(m, D, B, n); c.update({'replay': what, 'n': n, 'nb': B, 'it': it, 'dt': dt, 'fptype': fptype, 'bunch': b, 'before': before}); return c
+        prove(res, '%s n=%d B=%d it=%d dt=%d fptype=%d%s: bunch %d of the train == single-bunch run on its own data' % (what, n, B, it, dt, fptype, ' after a step of %s in the same process' % before if before else '', b),
               st.pc, z3.Or(*diffs), key='%s-multibunch' % what, cex_fn=cex)
     # witness: output of last bunch is not trivially independent of its data
     b = B - 1; d0 = D[b][(n // 2) * n + n // 2]; d2 = z3.Real('d_alt')
@@ -109,6 +116,7 @@ def replayer(bld):
             for s in (spec, spec1):
                 s.update({'what': w, 'dt': cex.get('dt', 3), 'fptype': cex.get('fptype', 3)})
                 if w == 'drift': s.update({'slip': [0.11, 0.013, 0.0017], 'E0': 1.3e9})      # the drift map of the snapshot world (harness build())
+        if cex.get('before'): spec['pre_apply'] = cex['before']      # the train's process has run the other map before; the single-bunch reference is a fresh process
         oB = native_run(bld, spec, 'c08B')['out']; o1 = native_run(bld, spec1, 'c08s')['out']
         dev = max(abs(oB[b * n * n + i] - o1[i]) for i in range(n * n))
         scale = max(1e-30, max(abs(x) for x in o1))
@@ -128,6 +136,10 @@ def main(tier):
         fixed = [(w, n, B, it, 3, 3) for w in ('rflin', 'rfsin', 'drift', 'idm') for n in (6, 8, 9) for B in (2, 3) for it in (2, 3, 4)]
         fixed += [('fpm', n, B, 4, dt, ft) for n in (8, 9) for B in (2, 3) for dt in (3, 4) for ft in (0, 1, 2, 3)]
     jobs = [(job_generic_kick, a) for a in kicks] + [(job_fixed_map, a) for a in fixed]
+    # histories: a map of another kind has made a step in the same process (wake kick before RF kick, RF kick before wake kick, ...)
+    hn, hB, hit = (6, 2, 3) if tier == 'quick' else (8, 3, 4)
+    jobs += [(job_fixed_map, (w, hn, hB, hit, 3, 3, b4)) for w, b4 in (('rflin', 'kmy'), ('rfsin', 'kmy'), ('drift', 'kmy'), ('fpm', 'kmy'), ('drift', 'kmx'), ('fpm', 'rflin'), ('idm', 'kmy'))]
+    jobs += [(job_generic_kick, (hn, hB, hit, 1, 6, b4)) for b4 in ('rflin', 'fpm', 'drift')] + [(job_generic_kick, (hn, hB, hit, 0, 7, 'rflin'))]
     chk.bounds = {'grid n': sorted({a[0] for a in kicks}), 'bunches B': sorted({a[1] for a in kicks}), 'interpolation points': sorted({a[2] for a in kicks}),
                   'displacement': 'per row k+f, k in [-2,2] fixed per row (seeded), f symbolic real in [0,1)', 'data': 'every cell of every bunch a real symbol in [-1,1]',
                   'RF/drift/FP parameters': 'the concrete values the harness constructs with (angle 0.1, f_RF 499 MHz, V 1.4 MV, slip {0.11,0.013,0.0017}, e1 0.01)'}
